@@ -14,19 +14,66 @@ import (
 
 const RaceBuild = true
 
-func point(k Kind)        { perturb(k) }
-func casResult(ok bool)   {}
-func condWaited()         {}
-func ledger(d int64)      {}
-func polling() bool       { return false }
-func waitSpin(k Kind)     { runtime.Gosched() }
+func point(k Kind)              { perturb(k) }
+func casResult(ok bool)         {}
+func condWaited()               {}
+func ledger(d int64)            {}
+func polling() bool             { return false }
+func waitSpin(k Kind)           { runtime.Gosched() }
 func virtualNow() (int64, bool) { return 0, false }
 
 type FakeTicker struct {
-	ch chan time.Time
-	fn func()
+	ch     chan time.Time
+	fn     func()
+	Period time.Duration
 }
 
 func newFakeTicker(d time.Duration, oneShot bool) *FakeTicker { return nil }
-func (f *FakeTicker) stop() bool                             { return false }
-func (f *FakeTicker) reset(d time.Duration) bool             { return false }
+func (f *FakeTicker) stop() bool                              { return false }
+func (f *FakeTicker) reset(d time.Duration) bool              { return false }
+
+// ---- no-op control API so that one harness source builds in both variants ----
+
+const (
+	MCount = 1 << iota
+	MGlobal
+	MBudget
+	MPerturb
+	MPoll
+)
+
+type Counters struct {
+	Steps                                           uint64
+	Kinds                                           map[string]uint64
+	CASFail, CondWaits, LockSpins, CondSpins, Parks uint64
+}
+
+var OnStuck func(reason string)
+
+func SetMode(m int)                     {}
+func Mode() int                         { return 0 }
+func GStep() int64                      { return 0 }
+func ResetGStep()                       {}
+func ArmPark(n int64)                   {}
+func Parked() <-chan int64              { return nil }
+func Resume()                           {}
+func SetStepBudget(max int64)           {}
+func Progress()                         {}
+func SetLiveBudget(b uint64)            {}
+func TotalSteps() uint64                { return 0 }
+func ResetLive()                        {}
+func ReadCounters() Counters            { return Counters{} }
+func CondWaits() uint64                 { return 0 }
+func CASFails() uint64                  { return 0 }
+func LockBalance() int64                { return 0 }
+func SetVirtual(on bool)                {}
+func VNow() int64                       { return time.Now().UnixNano() }
+func SetVNow(t int64)                   {}
+func AdvanceQuiet(d time.Duration)      {}
+func Advance(d time.Duration)           {}
+func Tickers() []*FakeTicker            { return nil }
+func ResetTickers()                     {}
+func (f *FakeTicker) Stopped() bool     { return false }
+func (f *FakeTicker) Fire() bool        { return false }
+func (f *FakeTicker) FireWait(int) bool { return false }
+func (f *FakeTicker) Pending() bool     { return false }
